@@ -1,5 +1,6 @@
 import Props.C09
 import Props.Named
+import Props.NamedPrimes
 /-!
 # C01 × C09 — signatures still verify after the key is serialised and re-loaded, and a re-loaded signing key makes the
 same signatures
@@ -17,6 +18,14 @@ variable {r : Gen.CurveRow} [Fact (Nat.Prime r.p)]
 
 /-- the point object of a loaded verifying key: `PointJacobi(curve.curve, x, y, 1, order)` -/
 def vkPoint (r : Gen.CurveRow) (vk : VK) : Curve.Pt := .jac ⟨KeysWire.curveFp r, vk.x, vk.y, 1, some r.n, false⟩
+
+/-- **tie of `vkPoint`**: it is the model function `OnCurve.loadedKeyPoint` (Model/EcdsaCurve.lean) at the key's
+coordinates — the function the model driver uses for every public-key argument of the `ecdsa_*` lines and exposes as
+`ecdsa_loaded_key_point`; the correspondence run of C01 (`loaded_key_point` stream) compares it, field by field
+(class, X, Y, Z, order, generator flag), with `VerifyingKey.from_string / from_der / from_pem(...).pubkey.point` of the
+real code for every container × point encoding on all 17 curves -/
+theorem vkPoint_is_model_loader (r : Gen.CurveRow) (vk : VK) :
+    vkPoint r vk = OnCurve.loadedKeyPoint (Named.crvOf r) vk.x vk.y := rfl
 
 /-- what `from_secret_exponent` stores in the key value: the coordinates the point model computes for `d * G` -/
 theorem vk_of_fromSecretExponent {c : Keys.Curve} {d : ℕ} {k : SK}
@@ -154,5 +163,35 @@ theorem reloaded_signing_key_signs_same (hr : r ∈ Gen.curveTable) (hn : Nat.Pr
       rw [g2] at e2; injection e2 with e2; exact e2.symm
   subst hkk
   exact ⟨hkd, rfl, fun dg kk rand enc allow => by rw [hkd]⟩
+
+/-! ### unconditional on the 13 curves whose p and n carry primality certificates (`NamedPrimes.unconditionalCurves`) -/
+
+theorem reloaded_verifying_key_verifies_unconditional (r : Gen.CurveRow) (hr : r ∈ NamedPrimes.unconditionalCurves)
+    (d : ℕ) (h1 : 1 ≤ d) (h2 : d < r.n) :
+    ∃ k : SK, SK.fromSecretExponent KeysWire.modelExt r d = .ok k ∧
+      (∀ enc, ∃ bs, k.vk.toString enc = .ok bs ∧ VK.fromString KeysWire.modelExt r bs true = .ok k.vk) ∧
+      (∀ enc, enc ≠ .raw → ∃ bs, k.vk.toDer enc = .ok bs ∧ VK.fromDer KeysWire.modelExt bs = .ok k.vk ∧
+        ∃ pem, k.vk.toPem enc = .ok pem ∧ VK.fromPem KeysWire.modelExt pem = .ok k.vk) ∧
+      ∀ {β σ : Type} (dg : Bytes) (kk : Option ℤ) (rand : ℤ → Res ℤ) (enc : ℤ → ℤ → ℤ → Res β) (wrap : β → σ)
+        (dec : σ → ℕ → Res (ℕ × ℕ)), Codec enc wrap dec r.n → ∀ (allow : Bool) (sig : β),
+        signDigest (OnCurve.ops (crvOf r)) d dg kk rand enc allow = .ok sig →
+        verifyDigest (OnCurve.ops (crvOf r)) (vkPoint r k.vk) dec (wrap sig) dg allow = .ok true := by
+  obtain ⟨hm, hp, hn⟩ := NamedPrimes.unconditional_subset r hr
+  haveI := Fact.mk hp
+  exact reloaded_verifying_key_verifies hm hn d h1 h2
+
+theorem reloaded_signing_key_signs_same_unconditional (r : Gen.CurveRow) (hr : r ∈ NamedPrimes.unconditionalCurves)
+    (d : ℕ) (h1 : 1 ≤ d) (h2 : d < r.n) :
+    ∃ k : SK, SK.fromSecretExponent KeysWire.modelExt r d = .ok k ∧
+      (∀ k' : SK, ((∃ bs, k.toString = .ok bs ∧ SK.fromString KeysWire.modelExt r bs = .ok k') ∨
+          (∃ enc fmt bs, enc ≠ .raw ∧ k.toDer enc fmt = .ok bs ∧ SK.fromDer KeysWire.modelExt bs = .ok k') ∨
+          (∃ enc fmt pem, enc ≠ .raw ∧ k.toPem enc fmt = .ok pem ∧ SK.fromPem KeysWire.modelExt pem = .ok k')) →
+        k'.d = d ∧ k'.vk = k.vk ∧
+          ∀ {β : Type} (dg : Bytes) (kk : Option ℤ) (rand : ℤ → Res ℤ) (enc : ℤ → ℤ → ℤ → Res β) (allow : Bool),
+            signDigest (OnCurve.ops (crvOf r)) (k'.d : ℤ) dg kk rand enc allow
+              = signDigest (OnCurve.ops (crvOf r)) (d : ℤ) dg kk rand enc allow) := by
+  obtain ⟨hm, hp, hn⟩ := NamedPrimes.unconditional_subset r hr
+  haveI := Fact.mk hp
+  exact reloaded_signing_key_signs_same hm hn d h1 h2
 
 end C01r
